@@ -91,6 +91,9 @@ def run(ctx):
         # ... of the variant that keeps what it last sent for an id after handing its removal over
         lambda: A(ctx, "ConcGen_equiv_coll_keep.cfg", "coll", "converged", 800 if thorough else 25,
                   simulate=None if thorough else "num=3000", equiv="coll")]
+    # ... of the variant whose unconditional Delete does not compare the item's identity under the lock
+    ajobs.append(lambda: A(ctx, "ConcGen_inc_norecheck.cfg", "coll", "converged", 800 if thorough else 25,
+                           simulate=None if thorough else "num=6000"))
     if thorough:
         ajobs.append(lambda: A(ctx, "ConcGen_lossy_coll_pinned.cfg", "coll", "converged", 800))
     att = [c for r in conc_common.par(ajobs, width=3 if thorough else 6) for c in r]
